@@ -191,11 +191,11 @@ PROPS = {
     "C15": {
         "level": "exploration",
         "rule": "run = seeded (variant in {seq_join over a pending source, seq_join+try_collect, SeqJoin::try_join, SeqJoin::parallel_join}, window 1..8, "
-                "length 0..40, release permutation, error positions, forward-dependency distance < window, source burst plan, policy); "
+                "length 0..40, release permutation, error positions, optionally with the tasks behind the first error never completing, forward-dependency distance < window, source burst plan, policy); "
                 "non-trivial iff >=1 multi-choice decision and >=2 tasks; distinct by (plan shape, schedule digest)",
         "scenarios": [
             {"name": "c15_sj", "quick": 60000, "thorough": 3000000, "offset": 1, "chunk": 3000},
-            {"name": "c15_sj", "quick": 0, "thorough": 1000000, "offset": 2, "chunk": 3000, "flavour": "mt", "thorough_only": True},
+            {"name": "c15_sj", "quick": 20000, "thorough": 1000000, "offset": 2, "chunk": 3000, "flavour": "mt"},
         ],
         "expected_probes": ["nonfront_polls", "source_pending", "dep_runs", "error_runs"],
         "components_real": ["seq_join::{seq_join, seq_try_join_all, SeqJoin::try_join, SeqJoin::parallel_join} (local implementation; multi_thread.rs in flavour mt, thorough tier)"],
@@ -354,7 +354,7 @@ MANIFEST_TEXT = {
     "C15": {
         "text": "Seeded exploration of the real seq_join / try_join / parallel_join with gate futures released by an environment task in seeded orders, pending sources, error plans and forward dependencies inside the window. Oracle: exactly-once in input order; at every poll of a joined task the number of started-unfinished tasks is >= min(window, inputs available); every dependency pattern of distance < window terminates (deadlock/step-cap = violation); the fallible variants return the first error in input order; parallel_join returns all-in-order or one of the planned errors. Sampling, not proof.",
         "design_ref": "DESIGN.md section 4, C15",
-        "note": "quick tier runs the default (single-threaded) implementation; the multi-threaded (spawning) implementation is built and run in the thorough tier (flavour mt); its window lower bound is judged when the join returns Pending (it fills its window across several scheduling steps), and the cancellation-marker panic of tasks still in flight after a planned error is a shuttle artefact (tokio confines a task's panic to the task) that is counted, not judged",
+        "note": "both implementations run in both tiers (the multi-threaded, spawning one on the `mt` build); its window lower bound is judged when the join returns Pending (it fills its window across several scheduling steps), and the cancellation-marker panic of tasks still in flight after a planned error is a shuttle artefact (tokio confines a task's panic to the task) that is counted, not judged",
         "technique": "deterministic simulation: seeded schedule + release-order search over the real join combinators, history oracle",
     },
     "C16": {
